@@ -18,8 +18,9 @@ def sh(cmd, **kw):
 
 def main():
     pid, k = sys.argv[1], sys.argv[2]
-    wt = Path(f"/tmp/wt_{pid}")
-    src = Path(f"/tmp/out_{pid}/m{k}")
+    rnd = sys.argv[3] if len(sys.argv) > 3 else ""          # "2": second round (/tmp/wt2_<id>, /tmp/out2_<id>, stored as <id>-r2)
+    wt = Path(f"/tmp/wt{rnd}_{pid}")
+    src = Path(f"/tmp/out{rnd}_{pid}/m{k}")
     env = dict(os.environ, PYTHONPATH=str(wt / "src"), PYTHONHASHSEED="0")
     env.pop("PYTRAPIC_VERIF", None)
     ver = wt / "src/stationeers_pytrapic/_version.py"
@@ -47,7 +48,7 @@ def main():
     conf["confirmed"] = bool(ok)
     print(json.dumps(conf, indent=1)[:2500])
     if ok:
-        dst = V / "seeded" / f"{pid}-m{k}"
+        dst = V / "seeded" / (f"{pid}-r{rnd}" if rnd else f"{pid}-m{k}")
         dst.mkdir(parents=True, exist_ok=True)
         shutil.copy(src / "patch.diff", dst / "patch.diff")
         shutil.copy(src / "demo.py", dst / "demo.py")
